@@ -420,7 +420,7 @@ impl<'s> Tokenizer<'s> {
     fn syntax_error(&mut self, msg: &'static str) -> Error {
         let mut span = self.span(self.loc());
         if span.start_col == span.end_col {
-            span.end_col += 1;
+            span.end_col = span.end_col.saturating_add(1);
             // cover the next character in full so that the range stays a valid
             // slice of the source (nothing at the end of the input).
             span.end_offset += self.rest().chars().next().map_or(0, |c| c.len_utf8()) as u32;
